@@ -7,7 +7,7 @@ from lib import vlib
 
 BASE = dict(NFlows="2", NNodes="2", EmptyFlows="{}", MaxSteps="4", MaxResumes="2", MaxCalls="4",
             FaultKinds="{}", MaxFaults="0")
-FAULTS = '{"flow_gone", "parent_gone", "node_gone", "wait_gone"}'
+FAULTS = '{"flow_gone", "parent_gone", "node_gone", "pnode_gone", "wait_gone"}'
 
 
 def gen_plan(ctx, prop):
@@ -32,6 +32,9 @@ def gen_plan(ctx, prop):
         # every behaviour of two one-node flows in which the flow of the run paused ABOVE the waiting one disappears
         plans.append(("parent-gone-2x1", dict(BASE, NNodes="1", MaxSteps="3", MaxCalls="3", TrigKinds='{"manual"}', ResumeKinds='{"msg", "expiration"}',
                                               FaultKinds='{"parent_gone"}', MaxFaults="1"), None))
+        # ... or in which the enter_flow node that run stands on is edited away
+        plans.append(("pnode-gone-2x1", dict(BASE, NNodes="1", MaxSteps="3", MaxCalls="3", TrigKinds='{"manual"}', ResumeKinds='{"msg", "expiration", "timeout"}',
+                                             FaultKinds='{"pnode_gone"}', MaxFaults="1"), None))
         if not q:
             plans.append(("faults2", dict(BASE, FaultKinds=FAULTS, MaxFaults="2", MaxCalls="5"), n))
     # voice flows: dial waits next to msg waits, dial resumes (accepted by dial waits only), the resume limit counts both
